@@ -79,6 +79,10 @@ func (f *WithOpenFile) Call(s *slip.Scope, args slip.List, depth int) (result sl
 	args = args[1:]
 	for i := range args {
 		result = slip.EvalArg(s2, args, i, d2)
+		switch result.(type) {
+		case *slip.ReturnResult, *GoTo:
+			return result
+		}
 	}
 	return
 }
